@@ -243,6 +243,11 @@ func (ms MatrixSetup) MarshalYAML() (any, error) {
 
 // UnmarshalOrdered unmarshals from either []any or *ordered.MapSA.
 func (ms *MatrixSetup) UnmarshalOrdered(o any) error {
+	if o == nil {
+		// `setup: null`, which is also how a nil setup is marshalled.
+		*ms = nil
+		return nil
+	}
 	if *ms == nil {
 		*ms = make(MatrixSetup)
 	}
